@@ -275,6 +275,36 @@ func hashDir(dir string) map[string]string {
 	return out
 }
 
+// treeDigest hashes every input file below root (everything except the result and scratch folders): runs must not write there
+func treeDigest(root string) map[string]string {
+	out := map[string]string{}
+	filepath.Walk(root, func(path string, info os.FileInfo, err error) error {
+		if err != nil {
+			return nil
+		}
+		rel, _ := filepath.Rel(root, path)
+		if info.IsDir() {
+			if rel == "res" || rel == "scratch" || rel == "res_unused" {
+				return filepath.SkipDir
+			}
+			return nil
+		}
+		if info.Mode()&os.ModeSymlink != 0 {
+			out[rel] = "symlink"
+			return nil
+		}
+		b, e := os.ReadFile(path)
+		if e != nil {
+			out[rel] = "unreadable"
+			return nil
+		}
+		h := sha256.Sum256(b)
+		out[rel] = hex.EncodeToString(h[:8])
+		return nil
+	})
+	return out
+}
+
 func sameHashes(a, b map[string]string) (bool, string) {
 	var names []string
 	for n := range a {
